@@ -293,12 +293,23 @@ def probe_args(name, probes, which):
     return None
 
 
-def observe(shape, probes, which, ctx, fresh=None):
+def observe(shape, probes, which, ctx, fresh=None, exports_first=False):
     """every public query of `shape`.  to_hoomd moves the shape to the origin and back and is not exception safe
-    (a query raising in between leaves the shape translated), so it is called on a fresh copy `fresh()`."""
+    (a query raising in between leaves the shape translated), so its VALUE is taken from a fresh copy `fresh()`.
+    exports_first: additionally call the exports (to_hoomd, gsd_shape_spec, repr) on `shape` itself before all other
+    queries - a covariant answer must not depend on what was asked before (an export that leaves an off-origin shape
+    moved, or a cache filled in a temporary frame, shows as a broken translation/rotation law of the later queries)."""
     obs = {}
     with warnings.catch_warnings():
         warnings.simplefilter("ignore")
+        if exports_first:
+            for nm in ("to_hoomd", "gsd_shape_spec", "inertia_tensor", "__repr__"):
+                try:
+                    m = getattr(shape, nm, None)
+                    if callable(m):
+                        m()
+                except Exception:  # noqa: BLE001  (reported through the queries themselves)
+                    pass
         for name, kind in public_members(shape):
             if name in SKIP:
                 continue
@@ -1236,7 +1247,9 @@ def _eval_case(ctx, case, gs):
         return
     rng = np.random.default_rng(case.get("probe_seed", 0))
     pr0 = make_probes(rng, case, sx)
-    ox = observe(sx, pr0, "x", ctx, lambda: build(case))
+    exports_first = bool(rng.random() < 0.5)
+    ctx.count("exports-first:%s" % exports_first)
+    ox = observe(sx, pr0, "x", ctx, lambda: build(case), exports_first)
     d = case_size(case)
     Ls = d + float(np.linalg.norm(ref_point(case)))
     mx = model_measures(ctx, sx, case)
@@ -1256,7 +1269,7 @@ def _eval_case(ctx, case, gs):
                      record, repr(e))
             continue
         pr = map_probes(pr0, g)
-        og = observe(sg, pr, "g", ctx, lambda: build(gcase))
+        og = observe(sg, pr, "g", ctx, lambda: build(gcase), exports_first)
         env = Env(ctx, case, gcase, g, sx, sg, ox, og, pr)
         res = compare(env)
         if getattr(env, "flipped", None):
